@@ -354,6 +354,7 @@ type Profile struct {
 	K7          bool
 	DensePct    int // chance that a seeded history fills its last block completely
 	NestedPct   int // chance of a whole transaction nested inside another one's callback
+	ForceSorted bool // always create a sorted index and iterate it often
 }
 
 func (w *World) colByName(n string) *Col {
@@ -1159,7 +1160,11 @@ func (g *txnGen) doTerminal(txn *column.Txn) {
 		}
 		return
 	}
-	switch w.rng.Intn(8) {
+	pick := w.rng.Intn(8)
+	if w.prof.ForceSorted && w.rng.Chance(60) {
+		pick = 7
+	}
+	switch pick {
 	case 0, 1:
 		g.stmt("count", "STerm TCount", fmt.Sprintf("RCount %d", txn.Count()))
 	case 2, 3:
@@ -1552,7 +1557,7 @@ func runCase(seed uint64, idx int, prof Profile, stats *Stats) (text string, not
 		if rng.Chance(40) {
 			w.addComp("trigger")
 		}
-		if rng.Chance(40) {
+		if rng.Chance(40) || prof.ForceSorted {
 			w.addComp("sorted")
 		}
 	}
